@@ -12,6 +12,8 @@
 # run by every operator method after it logged its call: the `var-clobber` route lets it assign to the caller's operand variables
 (var HOOK nil)
 (var ARGS [])
+# top-level variables (JANET_SLOT_REF operands) of the `var-clobber-top` route
+(var TOPV0 nil) (var TOPV1 nil) (var TOPV2 nil) (var TOPV3 nil) (var TOPV4 nil) (var TOPV5 nil) (var TOPV6 nil) (var TOPV7 nil)
 (var tab-counter 0)
 
 (defn fmtnum [x]
@@ -251,6 +253,15 @@
                'r)
          args)
     # the same with the call inside a closure: there the operand variables are UPVALUE slots (loaded by `ldu` when an instruction needs them)
+    # ... and with the operands in TOP-LEVEL variables (JANET_SLOT_REF slots: read through the reference array by `ldc; geti`)
+    (when (<= n 8)
+      (add "var-clobber-top"
+           (mkfn ps ;(seq [i :range [0 n]] (tuple 'set (symbol "TOPV" i) (in ps i)))
+                 (tuple 'set 'HOOK (tuple 'fn [] ;(seq [i :range [0 n]] (tuple 'set (symbol "TOPV" i) :clobbered))))
+                 (tuple 'def 'r (tuple f ;(seq [i :range [0 n]] (symbol "TOPV" i))))
+                 '(set HOOK nil)
+                 'r)
+           args))
     (add "var-clobber-up"
          (mkfn ps ;(seq [i :range [0 n]] (tuple 'var (symbol "x" i) (in ps i)))
                (tuple 'set 'HOOK (tuple 'fn [] ;(seq [i :range [0 n]] (tuple 'set (symbol "x" i) :clobbered))))
